@@ -169,7 +169,12 @@ def _cases():
         st.sampled_from([3, 5, 7, 9, 15, 17, 63, 65, 255, 257, 1023, 1025, 4095]),
     )
     banks = st.one_of(bank_specs(max_filts=12), bank_specs(max_filts=12), bank_specs(max_filts=40),
-                      narrowed_specs(["tri", "fbank", "gabor", "gammatone"]), round_linear_tri_specs())
+                      narrowed_specs(["tri", "fbank", "gabor", "gammatone"]), round_linear_tri_specs(),
+                      # a triangular bank accepts a top edge up to 1 Hz above the Nyquist frequency (round-off leeway):
+                      # its last filter must still stay inside the half spectrum
+                      st.builds(lambda b, d, a: dict(b, high_hz=float(b["sampling_rate"] // 2) + d, low_hz=min(b["low_hz"], b["sampling_rate"] / 8.0), analytic=a),
+                                bank_specs(kinds=["tri"], rates=[100, 100, 1000, 2000], max_filts=3), st.sampled_from([1.0, 1.0, 0.5, 0.01]),
+                                st.sampled_from([False, False, True])))
     return st.fixed_dictionaries({
         "bank": banks, "filt": st.integers(0, 39), "width": widths,
         "bins": st.one_of(floats(0.25, 2.0), floats(0.25, 12.0)),
